@@ -305,6 +305,10 @@ class MultiTanProcessor(object):
         for w in workers:
             w.join()
 
+        from .par_util import check_workers_succeeded
+
+        check_workers_succeeded(workers, "parallel tiling")
+
 
 def _mp_tile_worker(queue, done_event, pio, _kwargs):
     """
